@@ -215,6 +215,13 @@ func sendPacket(l *NDNLPLinkService, out dispatch.OutPkt) {
 		effectiveMtu -= congestionMarkOverhead
 	}
 
+	// The NDNLPv2 header of this packet (a PIT token of up to 32 bytes is chosen by the peer)
+	// may leave no room for payload on a face with a very small MTU
+	if effectiveMtu <= 0 {
+		core.LogWarn(l, "MTU ", l.transport.MTU(), " leaves no room for payload beside the NDNLPv2 header of this packet - DROP")
+		return
+	}
+
 	// Fragmentation
 	var fragments []*spec.LpPacket
 	if len(wire) > effectiveMtu {
